@@ -16,7 +16,7 @@ def check(chk):
     sd = C.seed()
     configs = [("O0", ""), ("O2", "")] + ([("O0", "nogc")] if thorough else [])
     n = 2000 if thorough else 120
-    judged, ncases = gm.run_cases(chk, "C01", "core", n, 40, configs, sd, "core")
+    judged, ncases = gm.run_cases(chk, "C01", "core", n, 40, configs, sd, "core", split_every=2)
     chk.cov["evaluations"] = judged
     chk.cov["distinct_nontrivial"] = ncases
     chk.cov["traces_validated_against_impl"] = judged
@@ -26,7 +26,8 @@ def check(chk):
                        "defer/recover); non-trivial = predicted by GoMachine and confirmed by the reference toolchain; evaluations = case x configuration")
     chk.assumptions += ["GoMachine's transcription of the Go spec and the Python lowering, self-validated against the reference toolchain on every case",
                         "plain -O2 cannot run on LLVM 14: O2 means llgo -O2 with the reduced pass pipeline O2* (DESIGN 3)",
-                        "the grammar covers the listed core; generics, range-over-func, goroutines beyond go+wait, floats and strings beyond literals are outside it"]
+                        "the grammar covers the listed core; generics, range-over-func, goroutines beyond go+wait, floats and strings beyond literals are outside it",
+                        "package division: every second case splits its call chain between package main and package lib (types stay in main)"]
 
 
 if __name__ == "__main__":
